@@ -1,6 +1,7 @@
 import FqModel.Proto
 import FqModel.Bits
 import FqModel.Query
+import FqModel.C11Print
 /-!
   driver for C11.  Case lines (harness/cmd/c11/main.go), the observation is one JSON value:
 
@@ -160,12 +161,117 @@ def stepRW (optsName : String) (obs : JV) : String :=
                 ((foreignNames rp a).isEmpty, "foreign-name " ++ toString (foreignNames rp a))]
   finish law div
 
+/-! ### pp: the Lean parser of the operator core against the fork's parser -/
+open FqModel.C11.Print in
+def opOfText : String → Option Op
+  | "|" => some .pipe | "," => some .comma | "//" => some .alt
+  | "=" => some .upd | "|=" => some .upd | "+=" => some .upd | "-=" => some .upd | "*=" => some .upd
+  | "/=" => some .upd | "%=" => some .upd | "//=" => some .upd
+  | "or" => some .or | "and" => some .and
+  | "==" => some .cmp | "!=" => some .cmp | "<" => some .cmp | "<=" => some .cmp | ">" => some .cmp | ">=" => some .cmp
+  | "+" => some .add | "-" => some .sub | "*" => some .mul | "/" => some .div | "%" => some .mod
+  | _ => none
+
+open FqModel.C11.Print in
+def tokOfText (t : String) : Option Tok :=
+  match opOfText t with
+  | some o => some (.op o)
+  | none =>
+    if t == "?" then some .quest
+    else if t == "(" then some .lparen
+    else if t == ")" then some .rparen
+    else if t == "if" then some (.bopen "if")
+    else if t == "then" then some .bsep
+    else if t == "end" then some .bclose
+    else if t.startsWith "as:" then some (.as_ (t.drop 3).toString)
+    else if t.startsWith "label:" then some (.label (t.drop 6).toString)
+    else if t.all (fun c => c.isAlphanum || c == '$' || c == '_') && !t.isEmpty then some (.atom t)
+    else none
+
+def addSuffix (term suffix : JV) : JV :=
+  match term.get "suffix_list" with
+  | .arr xs => term.set "suffix_list" (.arr (xs ++ [suffix]))
+  | _ => term.set "suffix_list" (.arr [suffix])
+
+/- AST JSON of an operator tree (the fork's field names); the operator texts are taken, in print order, from the
+    token line (the tree only knows the operator class) -/
+open FqModel.C11.Print in
+mutual
+  def termJ : E → List String → Option (JV × List String)
+    | .atom s, ops =>
+      if s.front.isDigit then some (.obj [("number", .str s), ("type", .str "TermTypeNumber")], ops)
+      else some (.obj [("func", .obj [("name", .str s)]), ("type", .str "TermTypeFunc")], ops)
+    | .paren e, ops => do
+      let (j, ops) ← queryJ e ops
+      pure (.obj [("query", j), ("type", .str "TermTypeQuery")], ops)
+    | .brack _ a b, ops => do
+      let (ja, ops) ← queryJ a ops
+      let (jb, ops) ← queryJ b ops
+      pure (.obj [("if", .obj [("cond", ja), ("then", jb)]), ("type", .str "TermTypeIf")], ops)
+    | .opt e, ops => do
+      let (t, ops) ← termJ e ops
+      pure (addSuffix t (.obj [("optional", .bool true)]), ops)
+    | .neg e, ops =>
+      match ops with
+      | o :: ops => do
+        let (t, ops) ← termJ e ops
+        pure (.obj [("type", .str "TermTypeUnary"), ("unary", .obj [("op", .str o), ("term", t)])], ops)
+      | [] => none
+    | _, _ => none
+  def queryJ : E → List String → Option (JV × List String)
+    | .bin _ l r, ops => do
+      let (jl, ops) ← queryJ l ops
+      match ops with
+      | o :: ops =>
+        let (jr, ops) ← queryJ r ops
+        pure (.obj [("left", jl), ("op", .str o), ("right", jr)], ops)
+      | [] => none
+    | .bind t p b, ops => do
+      let (jt, ops) ← termJ t ops
+      let (jb, ops) ← queryJ b ops
+      pure (.obj [("term", addSuffix jt (.obj [("bind", .obj [("body", jb), ("patterns", .arr [.obj [("name", .str p)]])])]))], ops)
+    | .label n b, ops => do
+      let (jb, ops) ← queryJ b ops
+      pure (.obj [("term", .obj [("label", .obj [("body", jb), ("ident", .str n)]), ("type", .str "TermTypeLabel")])], ops)
+    | e, ops => do
+      let (t, ops) ← termJ e ops
+      pure (.obj [("term", t)], ops)
+end
+
+def stepPP (toks : List String) (obs : JV) : String :=
+  match toks.mapM tokOfText with
+  | none => "BADOP pp-token"
+  | some ts =>
+    let opTexts := toks.filter fun t => (opOfText t).isSome
+    let model : Option JV :=
+      match FqModel.C11.Print.parse ts with
+      | some e => match queryJ e opTexts with
+        | some (j, []) => some j
+        | _ => some (.str "model-conversion-failed")
+      | none => none
+    -- the printed form of what the model parsed must be the token line again (print is a left inverse on parser output)
+    let law : Option String :=
+      match FqModel.C11.Print.parse ts with
+      | some e =>
+        if FqModel.C11.Print.print e != ts then some "model-print-of-parse-differs"
+        else if !(FqModel.C11.Print.wf e) then some "model-parse-not-wellformed"
+        else none
+      | none => none
+    match law with
+    | some w => s!"BADOP {w}"
+    | none =>
+      match model, obs with
+      | none, .str "reject" => "OK"
+      | none, _ => "DIVERGE model=reject"
+      | some m, o => if m == o then "OK" else s!"DIVERGE model={clipStr m.encode}"
+
 def stepC11 (op obs : String) : String :=
   match parseJson obs with
   | none => "BADOP observation-is-not-json"
   | some o =>
     if o.hasKey "harness_error" then "BADOP harness-error" else
     match words op with
+    | "pp" :: toks => stepPP toks o
     | ["rt", _] => stepRT o
     | ["ctor", name, h1, _] =>
       match hexText h1 with
